@@ -21,8 +21,8 @@ def check(ctx):
     ctx.rule("R09.2", "per grid point exactly one record is added to predictors_, objectives_, oracle_execution_times_, "
                       "lambda_vecs_[i] and gammas_[i], and objective / gamma are evaluated on the estimator fitted in this "
                       "iteration")
-    ctx.rule("R09.3", "loss(i) = objective_weight*objectives_[i] + constraint_weight*max(gammas_[column i]) with "
-                      "objective_weight = 1 - constraint_weight; best_idx_ is the first argmin; predict / predict_proba "
+    ctx.rule("R09.3", "loss(i) = (1 - constraint_weight)*objectives_[i] + constraint_weight*max(gammas_[column i]) (the "
+                      "complement taken at fit time, or an attribute that __init__ sets to 1 - constraint_weight); best_idx_ is the first argmin; predict / predict_proba "
                       "delegate to predictors_[best_idx_]")
     ctx.rule("R09.4", "the integer lattice is truncated to exactly grid_size entries, scaled by grid_limit / n_units, split "
                       "into non-negative positive / negative parts and mapped through the two bases; the recursion bounds "
@@ -160,6 +160,7 @@ def check(ctx):
     v = e.data["value"]
     ok = False
     loss_ok = False
+    uses_ow = True
     if v.op == "call" and v.args[0].op == "attr" and v.args[0].args[1] == "index" and v.args[1] and v.args[1][0].op == "call" \
             and v.args[1][0].args[0] is glob("builtins.min") and v.args[1][0].args[1][0] is v.args[0].args[0]:
         losses = v.args[0].args[0]
@@ -170,10 +171,13 @@ def check(ctx):
             okr = A.eq(gens[0][0], A.at(e, "range(len(self.objectives_))"))
             want = A.at(e, "self.objective_weight * self.objectives_[K] + self.constraint_weight * self.gammas_[G.columns[K]].max()",
                         {"K": k, "G": grid})
-            loss_ok = okr and A.eq(elt, want)
+            direct = A.at(e, "(1.0 - self.constraint_weight) * self.objectives_[K] + self.constraint_weight * self.gammas_[G.columns[K]].max()",
+                          {"K": k, "G": grid})
+            uses_ow = contains(elt, lambda s_: s_.op == "attr" and s_.args[1] == "objective_weight")
+            loss_ok = okr and (A.eq(elt, direct) or A.eq(elt, want))
     np_ok = v.op == "call" and v.args[0] is glob("numpy.argmin")
     ctx.ob("R09.3", fq, e.node, ok or np_ok, "best_idx_ is the first index attaining the minimum loss", construct="first argmin")
-    ctx.ob("R09.3", fq, e.node, loss_ok, "loss(i) = objective_weight*objectives_[i] + constraint_weight*max(gammas_[grid "
+    ctx.ob("R09.3", fq, e.node, loss_ok, "loss(i) = (1 - constraint_weight)*objectives_[i] + constraint_weight*max(gammas_[grid "
            "column i])", construct="trade-off loss")
     A2 = Analysis(ctx)
     ri = A2.run(GS + ".__init__", cls_ctx=GS)
@@ -182,7 +186,12 @@ def check(ctx):
     P = ri.params
     ok = ow is not None and cw is not None and A2.eq(ow, A2.spec("1.0 - c", {"c": P["constraint_weight"]})) and \
         (A2.eq(cw, P["constraint_weight"]) or A2.eq(cw, A2.spec("float(c)", {"c": P["constraint_weight"], "float": glob("builtins.float")})))
-    ctx.ob("R09.3", ri.func, None, ok, "objective_weight = 1 - constraint_weight", construct="weights complement")
+    if uses_ow:
+        ctx.ob("R09.3", ri.func, None, ok, "objective_weight = 1 - constraint_weight", construct="weights complement")
+    else:
+        okc = cw is not None and (A2.eq(cw, P["constraint_weight"]) or A2.eq(cw, A2.spec("float(c)", {"c": P["constraint_weight"], "float": glob("builtins.float")})))
+        ctx.ob("R09.3", ri.func, None, okc, "constraint_weight is stored as given; the objective's weight is its complement at fit time",
+               construct="weights complement")
     for m in ("predict", "predict_proba"):
         rp = A2.run(f"{GS}.{m}", cls_ctx=GS)
         want = A2.entry(rp, f"self.predictors_[self.best_idx_].{m}(X)")
@@ -377,6 +386,6 @@ def _shared_c09(ctx):
     from .c12 import label_sinks
     from .c19 import lifecycle_of
     ctx.rule("R09.7", "fit does not depend on state left by an earlier fit and prediction writes no state (shared with C19 R19.3 / R19.4)")
-    lifecycle_of(ctx, [GS], {"R19.3": "R09.7", "R19.4": "R09.7", "R19.6": "R09.7"})
+    lifecycle_of(ctx, [GS], {"R19.3": "R09.7", "R19.4": "R09.7", "R19.6": "R09.7", "R19.8": "R09.7"})
     ctx.rule("R09.8", "no caller-labelled pandas value reaches a label-aligning operation on the paths of this property (shared with C12 R12.1)")
     label_sinks(ctx, "R09.8", [(GS + ".fit", GS)])
